@@ -547,6 +547,26 @@ class Interp:
                 and (c.get('impl_self') or '').startswith(self.COLL_PREFIXES):
             val = ('e',)
             handled = True
+        elif path == 'std::ops::FromResidual::from_residual' and (c.get('self_ty') or '').startswith('std::option::Option<'):
+            val = ('v', frozenset(['None']))     # `x?` on an Option: the early return value is None
+            handled = True
+        elif path in ('std::option::Option::<T>::unwrap', 'std::option::Option::<T>::expect', 'std::option::Option::<T>::unwrap_unchecked') \
+                and args and args[0][0] in ('c', 'm'):
+            # the payload of a tracked `Some(x)`: the value and its tracked sub-places move to the destination
+            whole = self.get(st, self.norm(st, args[0][1]))
+            if whole == ('v', frozenset(['None'])):
+                return []        # unwrap() of a value known to be None diverges
+            src = self.norm(st, args[0][1]) + SOME0
+            if self.trackable(src):
+                cur = self.get(st, src)
+                if cur is not None and cur[0] in ('v', 'c'):
+                    val = cur
+                n = len(src)
+                for k, v in st.items():
+                    kp = kp_of(k)
+                    if len(kp) > n and kp[:n] == src:
+                        sub.append((kp[n:], v))
+            handled = True
         elif path == 'std::option::Option::<T>::take' or path in ('std::mem::take', 'std::mem::replace'):
             tgt = arg_ref_target(0)
             if tgt is not None:
